@@ -3926,7 +3926,10 @@ where
           1 => {
             if is_ident_time_data_type(self.state.cddl, ident) {
               if let Value::Integer(value) = *value.as_ref() {
-                let dt = Utc.timestamp_opt(value.try_into().unwrap(), 0);
+                // the integer may lie outside the i64 range of seconds
+                let dt = i64::try_from(value)
+                  .map(|secs| Utc.timestamp_opt(secs, 0))
+                  .unwrap_or(chrono::LocalResult::None);
                 if let chrono::LocalResult::None = dt {
                   self.add_error(format!(
                     "expected time data type, invalid UNIX timestamp {:?}",
